@@ -729,7 +729,9 @@ func init() {
 	I["fmt.Printf"] = func(g *G, a []Value, pos token.Pos) Value { return Tuple{mkInt(0), nilErr()} }
 
 	// ---------- encoding/binary Read/Write (layout from the actual Go types)
-	I["encoding/binary.Read"] = func(g *G, a []Value, pos token.Pos) Value { return g.binaryRead(a[0].(Iface), a[1].(Iface), a[2].(Iface), pos) }
+	I["encoding/binary.Read"] = func(g *G, a []Value, pos token.Pos) Value {
+		return g.binaryRead(a[0].(Iface), a[1].(Iface), a[2].(Iface), pos)
+	}
 	I["encoding/binary.Write"] = func(g *G, a []Value, pos token.Pos) Value {
 		return g.binaryWrite(a[0].(Iface), a[1].(Iface), a[2].(Iface), pos)
 	}
